@@ -312,6 +312,32 @@ func checkUTF8(c utfCase) error {
 			}
 		}
 	}
+	// the same document with every byte of the value written as an octal escape: escapes are the
+	// only way a text literal can carry bytes the tokenizer would not accept raw, so the verdict is
+	// exact here (string and bytes positions alike; the hand-written Any reader included)
+	{
+		base := mcase.New(c.Type, c.Dynamic)
+		if err := model.Apply(base, c.M, nil); err != nil {
+			return err
+		}
+		if tdoc, err := (prototext.MarshalOptions{AllowPartial: true}).Marshal(base.Interface()); err == nil && bytes.Count(tdoc, []byte(marker)) == 1 {
+			var esc []byte
+			for _, b := range c.S {
+				esc = append(esc, fmt.Sprintf("\\%03o", b)...)
+			}
+			doc := bytes.Replace(tdoc, []byte(marker), esc, 1)
+			m7 := mcase.New(c.Type, c.Dynamic)
+			err := (prototext.UnmarshalOptions{AllowPartial: true}).Unmarshal(doc, m7.Interface())
+			if (err != nil) != bad {
+				return fmt.Errorf("prototext.Unmarshal error=%v, want failure=%v for a document holding escaped %q in %s (enforced=%v)\n%s", err, bad, c.S, fd.FullName(), must, doc)
+			}
+			if err == nil {
+				if d := model.Diff(md, stripUnknown(val), model.Snapshot(m7), eq, nil); d != "" {
+					return fmt.Errorf("text document (escaped literal) decode changed content: %s", d)
+				}
+			}
+		}
+	}
 	return nil
 }
 
